@@ -180,7 +180,4 @@ theorem disconnect_step (rank : TxId → Nat) (e : Env) (ctx : Ctx) (s s' : Stor
   simp only [pendSide, Prod.mk.injEq] at r2
   exact hfin.congr r2.1 r2.2.1
 
-/-- … and when the store has no record for the block (no relevant transaction in it), nothing changes -/
-theorem disconnect_step_norec_goal : Prop := True
-
 end MW.Lemmas.PendHist
